@@ -14,11 +14,12 @@ Qed.
 
 Lemma nk_eqb_eq a b : nk_eqb a b = true <-> a = b.
 Proof.
-  destruct a as [[[a1 a2] a3] a4], b as [[[b1 b2] b3] b4]. cbn. split; intros H.
-  - apply andb_true_iff in H. destruct H as [H H4]. apply andb_true_iff in H. destruct H as [H H3].
-    apply andb_true_iff in H. destruct H as [H1 H2].
-    apply opt3_eqb_eq in H1, H4. apply Nat.eqb_eq in H2, H3. now subst.
-  - inversion H; subst. rewrite !Nat.eqb_refl. rewrite (proj2 (opt3_eqb_eq b1 b1) eq_refl), (proj2 (opt3_eqb_eq b4 b4) eq_refl). reflexivity.
+  destruct a as [[[[a1 a2] a3] a4] a5], b as [[[[b1 b2] b3] b4] b5]. cbn. split; intros H.
+  - apply andb_true_iff in H. destruct H as [H H5]. apply andb_true_iff in H. destruct H as [H H4].
+    apply andb_true_iff in H. destruct H as [H H3]. apply andb_true_iff in H. destruct H as [H1 H2].
+    apply opt3_eqb_eq in H1, H4, H5. apply Nat.eqb_eq in H2, H3. now subst.
+  - inversion H; subst. rewrite !Nat.eqb_refl.
+    rewrite (proj2 (opt3_eqb_eq b1 b1) eq_refl), (proj2 (opt3_eqb_eq b4 b4) eq_refl), (proj2 (opt3_eqb_eq b5 b5) eq_refl). reflexivity.
 Qed.
 
 Lemma list_eqb_eq {A} (eqb : A -> A -> bool) (H : forall x y, eqb x y = true <-> x = y) l l' :
@@ -38,15 +39,16 @@ Qed.
 
 Lemma gkey_eqb_eq a b : gkey_eqb a b = true <-> a = b.
 Proof.
-  destruct a as [l|[[x y] z] r|f p c], b as [l'|[[x' y'] z'] r'|f' p' c']; cbn; split; intros H; try discriminate.
+  destruct a as [l|[[x y] z] r|f sr p c], b as [l'|[[x' y'] z'] r'|f' sr' p' c']; cbn; split; intros H; try discriminate.
   - apply (list_eqb_eq nk_eqb nk_eqb_eq) in H. now subst.
   - inversion H; subst. now apply (list_eqb_eq nk_eqb nk_eqb_eq).
   - apply andb_true_iff in H. destruct H as [H H4]. apply andb_true_iff in H. destruct H as [H H3].
     apply andb_true_iff in H. destruct H as [H1 H2]. apply Nat.eqb_eq in H1, H2, H3, H4. now subst.
   - inversion H; subst. now rewrite !Nat.eqb_refl.
-  - apply andb_true_iff in H. destruct H as [H H3]. apply andb_true_iff in H. destruct H as [H1 H2].
-    apply optnat_eqb_eq in H1. apply Nat.eqb_eq in H2, H3. now subst.
-  - inversion H; subst. rewrite (proj2 (optnat_eqb_eq f' f') eq_refl), !Nat.eqb_refl. reflexivity.
+  - apply andb_true_iff in H. destruct H as [H H4]. apply andb_true_iff in H. destruct H as [H H3].
+    apply andb_true_iff in H. destruct H as [H1 H2].
+    apply optnat_eqb_eq in H1. apply opt3_eqb_eq in H2. apply Nat.eqb_eq in H3, H4. now subst.
+  - inversion H; subst. rewrite (proj2 (optnat_eqb_eq f' f') eq_refl), (proj2 (opt3_eqb_eq sr' sr') eq_refl), !Nat.eqb_refl. reflexivity.
 Qed.
 
 (* ---- grouping partitions its input ---- *)
@@ -198,11 +200,43 @@ Proof. unfold diagnostics. split; [apply group_same_source | apply group_heads_d
 (* non-vacuity: three conflicts with one nil source, a nolint range on the first one's line *)
 Definition mkpos f l := {| p_file := f; p_line := l; p_col := 1; p_off := l * 10; p_valid := true |}.
 Definition nopos := {| p_file := 0; p_line := 0; p_col := 0; p_off := 0; p_valid := false |}.
-Definition src_node := {| n_ppos := mkpos 1 3; n_cpos := mkpos 1 3; n_prepr := 7; n_crepr := 8 |}.
-Definition use_node l := {| n_ppos := nopos; n_cpos := mkpos 1 l; n_prepr := 9; n_crepr := 10 |}.
-Definition ex_conflict i l := {| c_id := i; c_pos := mkpos 1 l; c_nil := [src_node]; c_nonnil := [use_node l]; c_func := None; c_test := false |}.
+Definition src_node := {| n_ppos := mkpos 1 3; n_cpos := mkpos 1 3; n_prepr := 7; n_crepr := 8; n_site := mkpos 1 3 |}.
+Definition use_node l := {| n_ppos := nopos; n_cpos := mkpos 1 l; n_prepr := 9; n_crepr := 10; n_site := nopos |}.
+Definition ex_conflict i l := {| c_id := i; c_pos := mkpos 1 l; c_nil := [src_node]; c_nonnil := [use_node l]; c_func := None; c_test := false; c_src := nopos |}.
 Definition ex_cs := [ex_conflict 1 10; ex_conflict 2 20; ex_conflict 3 30].
 Example ex_nolint_first :
   map (fun d => (c_id (d_head d), map c_id (d_similar d))) (diagnostics true [{| r_file := 1; r_from := 10; r_to := 10 |}] false ex_cs)
   = [(2, [3])].
 Proof. reflexivity. Qed.
+
+(* ---- the key separates what the printed positions cannot (repairs of F56, F57) ---- *)
+Lemma same_key_same_sites c c' : c_nil c <> [] -> group_key c = group_key c' ->
+  map (fun n => pos_key (n_site n)) (c_nil c) = map (fun n => pos_key (n_site n)) (c_nil c').
+Proof.
+  intros NE H. unfold group_key in H.
+  destruct (c_nil c) as [|n l] eqn:E; [congruence|].
+  destruct (c_nil c') as [|n' l'] eqn:E'.
+  - exfalso. destruct (c_nonnil c) as [|p0 r0]; destruct (c_nonnil c') as [|p [|q r]]; cbn in H; try discriminate;
+      destruct (pos_key (n_ppos p)); discriminate.
+  - assert (H' : map node_key (n :: l) = map node_key (n' :: l')) .
+    { assert (KI : forall a b, KPath a = KPath b -> a = b) by (intros a b X; now injection X).
+      destruct (c_nonnil c) as [|? [|? ?]], (c_nonnil c') as [|? [|? ?]]; cbv beta iota in H; exact (KI _ _ H). }
+    clear - H'. revert H'. generalize (n :: l) (n' :: l'). clear.
+    induction l as [|x l IH]; intros [|y l'] H; simpl in *; try discriminate; auto.
+    assert (Hx : node_key x = node_key y) by congruence.
+    assert (Hl : map node_key l = map node_key l') by congruence.
+    f_equal; [unfold node_key in Hx; congruence|now apply IH].
+Qed.
+
+Lemma same_key_same_source c c' p p' : c_nil c = [] -> c_nonnil c = [p] -> pos_key (n_ppos p) = None ->
+  c_nil c' = [] -> c_nonnil c' = [p'] -> group_key c = group_key c' -> pos_key (c_src c) = pos_key (c_src c').
+Proof.
+  intros E1 E2 E3 E1' E2' H. unfold group_key in H. rewrite E1, E2, E3, E1', E2' in H.
+  destruct (pos_key (n_ppos p')); [discriminate|]. now injection H.
+Qed.
+
+Example lookalike_files_not_grouped :
+  let n f := {| n_ppos := mkpos 2 3; n_cpos := mkpos 2 3; n_prepr := 7; n_crepr := 8; n_site := mkpos f 3 |} in
+  let c i f l := {| c_id := i; c_pos := mkpos 1 l; c_nil := [n f]; c_nonnil := [use_node l]; c_func := None; c_test := false; c_src := nopos |} in
+  gkey_eqb (group_key (c 1 2 10)) (group_key (c 2 3 11)) = false /\ gkey_eqb (group_key (c 1 2 10)) (group_key (c 3 2 12)) = true.
+Proof. vm_compute. split; reflexivity. Qed.
